@@ -91,6 +91,7 @@ def one_case(rng, tier, classes, cflags, force=None):
     return {'classes': classes, 'cflags': cflags, 'heap': heap, 'target': root, 'scope': scope,
             'root': 'S' if sroot else 'T', 'spelling': sp, 'style': style,
             'value': gen_value(rng, heap, root), 'missing': missing,
+            'warmup': rng.choice([1, 2, 2]) if rng.random() < force.get('warm_p', 0.15) else 0,
             'api': rng.choice(['assign', 'Assign'])}
 
 
@@ -170,10 +171,12 @@ def run_impl(case):
     default_keys = set(default_map)
     try:
         path = M.build_path(case, dv)
-        if case.get('api') == 'assign' and not kwargs:
+        if case.get('api') == 'assign' and not kwargs and not case.get('warmup'):
             res = glom.assign(target, path, val, missing=fac)
         else:
-            res = glom.glom(target, Assign(path, val, missing=fac), **kwargs)
+            spec = Assign(path, val, missing=fac)
+            M.warm_up(case, spec, fac)       # the same spec object, used on other targets before
+            res = glom.glom(target, spec, **kwargs)
     except Exception as e:
         r = M.observe_exc(e)
     else:
@@ -190,7 +193,7 @@ def run_impl(case):
 
 
 def key(case):
-    return {k: case.get(k) for k in ('heap', 'target', 'scope', 'root', 'spelling', 'style', 'value', 'missing')}
+    return {k: case.get(k) for k in ('heap', 'target', 'scope', 'root', 'spelling', 'style', 'value', 'missing', 'warmup')}
 
 
 def nontrivial(case, verdict):
@@ -208,6 +211,9 @@ def shrink(case):
     if case.get('scope') is not None and case.get('root') != 'S':
         c = dict(base); c['scope'] = None
         yield c
+    if case.get('warmup'):
+        c = dict(base); c['warmup'] = case['warmup'] - 1
+        yield c
 
 
 def focus(disagreements, facts_changed):
@@ -215,6 +221,8 @@ def focus(disagreements, facts_changed):
     if 'MutFacts' in (facts_changed or []):
         f['star_p'] = 0.4
         f['deep_star_p'] = 0.3
+        f['warm_p'] = 0.5
+        f['missing'] = 'dict'
     if any(c.get('root') == 'S' for c, _ in disagreements):
         f['sroot'] = True
     if disagreements and all(c.get('missing') for c, _ in disagreements):
